@@ -1,7 +1,7 @@
 From Coq Require Import List Arith Bool String.
 From Wire Require Import Sets Acyclic Solve Names Front Exec Model Emit Cli CopyAst ModelThms NamesThms Bridge ProcessWF Perm PermModel EmitThms Regroup RegroupModel SolveBound SolveBoundModel.
 From Wire Require Show ShowBound FrontRules InjBody.
-From Wire Require ChainRefuted Paths Layout Once OnceModel ExecThms Rename Imports.
+From Wire Require ChainRefuted AccessRules Paths Layout LayoutThms Once OnceModel ExecThms Rename Imports.
 Import ListNotations.
 
 (* The property theorems.  This file contains nothing but statements closed by [exact lemma] and the
@@ -474,6 +474,14 @@ Theorem C13_internal_package_rule : forall p from,
 Proof. exact Paths.importable_spec. Qed.
 Print Assumptions C13_internal_package_rule.
 
+(* accessibleFrom accepts a value expression for the injector's package iff that package can name everything the
+   expression mentions (exported or its own, not function-local, not in an internal package it cannot import, no
+   unkeyed literal setting another package's unexported field); otherwise the first such mention decides the message *)
+Theorem C13_accessible_iff_nameable : forall ms,
+  AccessRules.accessible_from ms = AccessRules.Ok <-> Forall AccessRules.nameable ms.
+Proof. exact AccessRules.accessible_iff. Qed.
+Print Assumptions C13_accessible_iff_nameable.
+
 (* ------------------------------------------------------------------ C15 *)
 (* a copy driven by a table that covers every child field of every node kind is the identity, on every tree
    (the table of the real copyAST is regenerated by reflection on every run and shown complete by the table
@@ -519,6 +527,17 @@ Theorem C01_injector_emitted_iff : forall fs id, NoDup (map fst fs) ->
    exists x d, In x fs /\ In d (snd x) /\ Layout.is_inj d = true /\ Layout.d_id d = id).
 Proof. exact Layout.injector_emitted_iff. Qed.
 Print Assumptions C01_injector_emitted_iff.
+
+(* ... exactly one: no injector is emitted twice, and nothing in the file is *)
+Theorem C01_injectors_emitted_once : forall fs, NoDup (map fst fs) -> NoDup (map Layout.d_id (Layout.all_decls fs)) ->
+  NoDup (List.concat (map Layout.inj_section fs)).
+Proof. exact LayoutThms.injectors_once. Qed.
+Print Assumptions C01_injectors_emitted_once.
+
+Theorem C15_nothing_emitted_twice : forall fs, NoDup (map fst fs) -> NoDup (map Layout.d_id (Layout.all_decls fs)) ->
+  NoDup (Layout.layout fs).
+Proof. exact LayoutThms.layout_nodup. Qed.
+Print Assumptions C15_nothing_emitted_twice.
 
 (* ------------------------------------------------------------------ C16 *)
 (* the collision predicates range over Go maps (imports, value variables); whatever order the map is iterated
